@@ -9,7 +9,7 @@ and attributes of the emitted trait and impls."""
 import json
 import os
 
-from lib import vf
+from lib import vf, expand
 from gen import asyncprogs
 
 VARIANTS = ("base", "send", "rc")
@@ -25,7 +25,8 @@ def main():
             crate.add_case(f"{c['case']}{v}", asyncprogs.render(c["in"], v))
     dump = os.path.join(chk.work, "dump")
     dropped, first_dump, iters = crate.build(mode="check", dump=dump, max_iter=20)
-    by_case, _ = vf.records_by_case(chk, first_dump)
+    by_case, allrecs = vf.records_by_case(chk, first_dump)
+    expand.conformance(chk, allrecs, "async")         # async inputs of all modes against the pipeline model (spec/Expand.tla)
     events = []
     for c in cases:
         cid = c["case"]
